@@ -212,6 +212,9 @@ OnIdle(g, e) ==
 OnSDone(g, e) ==
   MOut([g EXCEPT !.ended[e.s] = TRUE],
        Chk("C18.escape", e.s, e.how # "exc")
+       \* the session stays usable: it ends only when it is told to (a blank line, the client hanging up) - not on its own
+       \* after some non-blank line, leaving that line unanswered
+       \cup Chk("C18.one", e.s, g.ended[e.s] \/ e.how = "exc" \/ Len(g.q[e.s]) = 0)
        \* the session died on a well-formed command instead of answering it with the str() of the exception
        \cup (IF e.how = "exc" /\ Len(g.q[e.s]) > 0 /\ Head(g.q[e.s]).hascall THEN Chk("C17.reply", e.s, FALSE) ELSE {}),
        Hit("C18.escape", TRUE))
